@@ -817,7 +817,7 @@ def c07(ctx, res):
     # ---- watch: every re-check equals a fresh check
     hist_n = 1 if not ctx.thorough() else 12
     for h in range(hist_n):
-        watch_history(ctx, res, cp, "C07", h)
+        watch_history(ctx, res, cp, "C07", h, length=7)
     watch_history(ctx, res, cp, "C07", 50, stack=True)
     res.require(["watch_recheck", "watch_recheck_with_stack_flag", "watch_rewrite_by_rename_with_old_mtime"], "L2")
     return res
@@ -882,6 +882,13 @@ def watch_history(ctx, res, cp, prop, h, length=5, stack=False, ext_sources=Fals
     infolder_steps = {2} if not symlinked else set()
     # ... and last of all a version that is not text at all (not UTF-8): an error for a fresh check, and whatever
     # `watch` makes of it, it is not "no errors found"
+    if length >= 7 and not stack and not ext_sources:
+        # a version that draws a warning (a negative count) and then fails, followed by a clean one: what is said
+        # about a version is said about that version - warnings included, no more and no fewer than a fresh check gives
+        hist.append("buf .blkw #-3\nadd r0 r0 #99\n")
+        hist.append("add r0 r0 #1\nhalt\n")
+        hist.append("buf .blkw #-2\nhalt\n")
+        res.cls("watch_version_with_a_warning")
     hist.append(b"; caf\xe9\nloop add r0 r0 #1\nhalt\n")
     path = os.path.join(d, "w.asm")
     if symlinked:
@@ -1030,17 +1037,23 @@ def watch_history(ctx, res, cp, prop, h, length=5, stack=False, ext_sources=Fals
             res.inconclusive["watch output not understood"] = 1
             continue
         shown_ok = watch_ok
+        warn_w, warn_f = lastc.count("\u26a0"), (fresh.out + fresh.err).decode("utf-8", "replace").count("\u26a0")
+        if watch_ok == fresh_ok and warn_w != warn_f:
+            res.violate("%s/watch-warnings-differ-from-fresh-check" % prop,
+                        "re-check #%d of `lace watch` shows %d warning(s), a fresh `lace check` of the same text %d" % (k + 1, warn_w, warn_f), detail)
+            continue
         if watch_ok != fresh_ok:
             res.violate("%s/watch-differs-from-fresh-check" % prop,
                         "re-check #%d of `lace watch` reports %s, a fresh `lace check` of the same text reports %s"
                         % (k + 1, "success" if watch_ok else "an error", "success" if fresh_ok else "an error"), detail)
         elif not fresh_ok:
             # same diagnostic code
-            code_w = re.search(r"(lex|parse|preproc)::\w+", lastc)
-            code_f = re.search(r"(lex|parse|preproc)::\w+", fresh.err.decode("utf-8", "replace"))
-            if code_w and code_f and code_w.group(0) != code_f.group(0):
+            # (the code of the error: the last one printed - warnings, which carry codes too, come before it)
+            code_w = re.findall(r"(?:lex|parse|preproc)::\w+", lastc)
+            code_f = re.findall(r"(?:lex|parse|preproc)::\w+", fresh.err.decode("utf-8", "replace"))
+            if code_w and code_f and code_w[-1] != code_f[-1]:
                 res.violate("%s/watch-diagnostic-differs" % prop,
-                            "re-check #%d reports %s, a fresh check %s" % (k + 1, code_w.group(0), code_f.group(0)), detail)
+                            "re-check #%d reports %s, a fresh check %s" % (k + 1, code_w[-1], code_f[-1]), detail)
     if not alive and isinstance(hist[-1], bytes) and len(segments) == len(hist) and "Exiting..." in segments[-1]:
         pass    # gave up on the last version, which cannot be read as text: said so, and that is an error report
     elif not alive:
@@ -1326,6 +1339,9 @@ def c08_removed_cwd(ctx, res, d):
                             "exit %s but the destination was %s" % (p.returncode, "created" if before is None else "modified"), detail)
 
 
+_DIRECTIVE_LIKE_LABELS = ["end", "END", "End", "orig", "fill", "blkw", "stringz", "break", "org", "equ", "include", "macro", "endm", "text", "data", "global", "byte", "word", "db", "dw", "ds", "align"]
+
+
 def c08_surroundings(ctx, res, d):
     """Things around a compile that are not the destination: standard output that takes no data (a full
     device, a pipe whose reader has gone), both streams closed, a destination whose modification time
@@ -1341,7 +1357,8 @@ def c08_surroundings(ctx, res, d):
     other_fs = "/dev/shm" if os.path.isdir("/dev/shm") and os.stat("/dev/shm").st_dev != os.stat(d).st_dev else None
     kinds = ["stdout_full", "stdout_reader_gone", "streams_closed", "dest_mtime_in_the_future", "tmpdir_missing", "tmpdir_other_fs", "stdout_is_the_destination_dir",
              "source_in_another_directory", "256_failing_statements", "512_failing_statements", "255_failing_statements",
-             "destination_locked_elsewhere", "destination_open_elsewhere", "reference_65500_words_away", "reference_minus_65300_words_away"]
+             "destination_locked_elsewhere", "destination_open_elsewhere", "reference_65500_words_away", "reference_minus_65300_words_away"] + \
+            ["failure_behind_a_label_named:" + n for n in _DIRECTIVE_LIKE_LABELS]
     for kind in kinds:
         for pre in (True, False):
             base = os.path.join(d, "sur_%s_%d" % (kind, pre))
@@ -1404,6 +1421,12 @@ def c08_surroundings(ctx, res, d):
                     _write(os.path.join(base, "p.asm"), "far halt\n.blkw #65300\nld r0 far\nbr far\njsr far\n")
                 else:
                     _write(os.path.join(base, "p.asm"), "ld r0 far\nlea r1 far\njsr far\n.blkw #65500\nfar halt\n")
+                expect_ok = False
+            elif kind.startswith("failure_behind_a_label_named:"):
+                # names of directives without their dot, and words other assemblers reserve: labels here, and what
+                # follows them is assembled like everything else - the statement that cannot be emitted included
+                nm = kind.split(":", 1)[1]
+                _write(os.path.join(base, "p.asm"), "lea r0 %s\nputs\nhalt\n%s .stringz \"x\"\nld r1 far\n.blkw #300\nfar .fill x1\n" % (nm, nm))
                 expect_ok = False
             elif kind.endswith("_failing_statements"):
                 n_bad = int(kind.split("_")[0])
@@ -1672,6 +1695,8 @@ def c14_transport(ctx, res):
              # commands whose argument is text of another language (an instruction for eval, free text for echo): the
              # separator ends them like any other command
              ["eval add r4 r4 #1", "registers", "e add r4 r4 #2", "print r4", "evaluate not r4 r4", "registers", "EVAL and r4 r4 #0", "echo a # b", "print r4", "exit"],
+             # backslashes are ordinary characters of a command, in every delivery: no escape means anything
+             ["echo a\\nb", "echo x\\nmove r0 9", "print r0", "move r1 7\\nmove r1 8", "print r1", "echo t\\tab \\\\ end", "quit\\nmove r0 9", "registers", "exit"],
              # the last command is a single character with nothing behind it
              ["move r0 5", "step", "r"], ["echo a", "move r1 7", "print r1", "c"], ["step", "echo z", "x"],
              # two-byte characters from every sixteenth of their range (lead bytes xC2..xDF: Latin, Greek, Cyrillic, Hebrew, Arabic, N'Ko)
@@ -2695,12 +2720,17 @@ def c09_cli(ctx, res, limit):
 _KEYS = {"<Enter>": b"\r", "<BS>": b"\x7f", "<Del>": b"\x1b[3~", "<Left>": b"\x1b[D", "<Right>": b"\x1b[C", "<Up>": b"\x1b[A", "<Down>": b"\x1b[B"}
 
 
-def _pty_session(ctx, d, cache, keys, streams):
+def _pty_session(ctx, d, cache, keys, streams, cols=None):
     """Start `lace debug p.asm` on a pseudo-terminal, type `keys`, return (exit status or None, what the
     terminal showed). `streams` says where stdout and stderr go: the terminal or a file."""
     import pty
     import select
     master, slave = pty.openpty()
+    if cols:
+        import fcntl
+        import struct
+        import termios
+        fcntl.ioctl(master, termios.TIOCSWINSZ, struct.pack("HHHH", 24, cols, 0, 0))     # a terminal that knows its size
     env = dict(common.ENV, XDG_CACHE_HOME=cache, TERM="xterm")
     outf = open(os.path.join(d, "stdout.log"), "wb") if streams in ("stdout_to_file", "both_to_file") else None
     errf = open(os.path.join(d, "stderr.log"), "wb") if streams in ("stderr_to_file", "both_to_file") else None
@@ -2869,17 +2899,27 @@ def c20_pty(ctx, res):
     jobs = []
     for streams in ("all_on_terminal", "stderr_to_file", "stdout_to_file", "both_to_file"):
         for keys, want in sessions:
-            jobs.append((len(jobs), streams, keys, want))
+            jobs.append((len(jobs), streams, keys, want, None))
+    # terminals of a known width (a fresh pseudo-terminal reports 0 x 0), narrower than the line being edited: where
+    # the cursor is drawn is the terminal's business, where it *is* in the line is not
+    long_line = "echo " + "abcdefghij" * 5
+    narrow = [([long_line, "<BS>", "<BS>", "<Enter>", "exit", "<Enter>"], [long_line[:-2], "exit"]),
+              ([long_line, "<Left>", "<Left>", "X", "<Enter>", "exit", "<Enter>"], [long_line[:-2] + "X" + long_line[-2:], "exit"]),
+              ([long_line, "<Enter>", "<Up>", "<BS>", "!", "<Enter>", "exit", "<Enter>"], [long_line, long_line[:-1] + "!", "exit"]),
+              (["registers;registers;registers;registers;registers;help", "<Enter>", "exit", "<Enter>"], ["registers;registers;registers;registers;registers;help", "exit"])]
+    for cols in (40, 20, 80):
+        for keys, want in narrow:
+            jobs.append((len(jobs), "all_on_terminal_%d_columns" % cols, keys, want, cols))
 
     def one(job):
-        n, streams, keys, want = job
+        n, streams, keys, want, cols = job
         d = os.path.join(base, "s%d" % n)
         cache = os.path.join(d, "cache")
         os.makedirs(cache, exist_ok=True)
         _write(os.path.join(d, "p.asm"), "add r0 r0 #1\nadd r0 r0 #1\nhalt\n")
-        rc, shown = _pty_session(ctx, d, cache, keys, streams)
+        rc, shown = _pty_session(ctx, d, cache, keys, streams, cols)
         return job, cache, rc, shown
-    for (n, streams, keys, want), cache, rc, shown in pmap(one, jobs, workers=6):
+    for (n, streams, keys, want, cols), cache, rc, shown in pmap(one, jobs, workers=6):
         if True:
             res.evaluations += 1
             res.cls("l2:editor_on_a_terminal:" + streams)
@@ -2894,7 +2934,8 @@ def c20_pty(ctx, res):
                 res.violate("C20/pty/crash", "`lace debug` on a terminal crashed (exit %s)" % rc, detail)
             elif got != want:
                 res.violate("C20/pty/submitted-lines", "with %s the editor submitted %r; a plain editor holds %r after the same keys" % (streams, got, want), detail)
-    res.require(["l2:editor_on_a_terminal:all_on_terminal", "l2:editor_on_a_terminal:stderr_to_file", "l2:editor_on_a_terminal:both_to_file"], "L2")
+    res.require(["l2:editor_on_a_terminal:all_on_terminal", "l2:editor_on_a_terminal:stderr_to_file", "l2:editor_on_a_terminal:both_to_file",
+                 "l2:editor_on_a_terminal:all_on_terminal_40_columns", "l2:editor_on_a_terminal:all_on_terminal_20_columns"], "L2")
 
 
 # ------------------------------------------------------------------ C05 (L2 sample)
